@@ -1,44 +1,145 @@
-(* C08 - concurrent shells lose nothing.  Statements only; models in Conc/*.v (small-step
-   interleaving semantics, sequentially consistent, one label per atomic shared access),
-   proofs in Conc/*Proofs.v (inductive invariants over the step relation: every interleaving,
-   any number of threads, clones and tasks). *)
+(* C08 - concurrent shells lose nothing.  Statements only.
+
+   Models: Conc/v (P1 executor slot protocol), Conc/v (P2 waker / eviction protocol),
+   Conc/v (P3 event application): small-step interleaving semantics, sequentially
+   consistent, one label per atomic shared access (a mutex / RwLock region is one step), a
+   program counter per thread, thread / task / clone tables indexed by nat (any number of each).
+   [reachable s] = some sequence of labels (an interleaving) leads from [init] to [s]; every
+   theorem below is for ALL reachable states, proved by an inductive invariant over the step
+   relation in Conc/*Proofs.v (no enumeration, no bound).
+
+   Not claimed (and not what the property asks): that the effects one call returns were caused
+   by that call's input (return values are not linearisable); anything about weak memory (the
+   models are SC; `Arc::strong_count` is a Relaxed load and the repaired code adds an Acquire
+   fence for that reason); termination of the re-queue loop on `Unavailable` (liveness). *)
 From Coq Require Import List Arith Bool.
-From Crux Require Import Conc.Waker Conc.WakerProofs.
+From Crux Require Conc.Waker Conc.WakerProofs Conc.Events Conc.EventsProofs Conc.Slots Conc.SlotsProofs.
 Import ListNotations.
 
-(* ---------- P2: waker / eviction protocol of command/executor.rs ---------- *)
+(* ================= P1: executor slot protocol (capability/executor.rs) ================= *)
+
+(* a task is polled by at most one thread at a time *)
+Theorem C08_single_poller : forall s, Slots.reachable s -> forall t1 t2 fs1 fs2 k,
+  Slots.pcs s t1 = Slots.Polling fs1 k -> Slots.pcs s t2 = Slots.Polling fs2 k -> t1 = t2.
+Proof. exact SlotsProofs.single_poller. Qed.
+
+Theorem C08_polled_slot_is_taken : forall s, Slots.reachable s -> forall t fs k,
+  Slots.pcs s t = Slots.Polling fs k -> Slots.slots s k = Slots.STaken.
+Proof. exact SlotsProofs.polled_slot_is_taken. Qed.
+
+(* no lost wake: [pend s k] says that an id k was sent to the ready queue and that since then no
+   poll of slot k has started and no runner has found the slot vacant (task completed).  Such an
+   id is still in the ready queue or held by a thread that is about to run it or to re-queue it. *)
+Theorem C08_no_lost_wake : forall s, Slots.reachable s -> forall k, Slots.pend s k = true ->
+  In k (Slots.ready s) \/ exists t, Slots.holds (Slots.pcs s t) k.
+Proof. exact SlotsProofs.no_lost_wake. Qed.
+
+(* when every call has returned both queues and the effect channel are empty, and every wake-up
+   ever sent has been followed by a poll that started after it (or the task was gone) *)
+Theorem C08_quiescent_at_join : forall s, Slots.reachable s -> Slots.all_returned s ->
+  Slots.ready s = [] /\ Slots.spawnq s = 0 /\ Slots.effs s = [] /\ forall k, Slots.pend s k = false.
+Proof. exact SlotsProofs.quiescent_at_join. Qed.
+
+(* each effect is in the channel or was returned by exactly one drain; none is duplicated *)
+Theorem C08_effect_once : forall s, Slots.reachable s ->
+  map snd (Slots.rets s) ++ Slots.effs s = Slots.emitted s /\ NoDup (Slots.emitted s).
+Proof. exact SlotsProofs.effect_once. Qed.
+
+Theorem C08_effects_returned_exactly_once : forall s, Slots.reachable s -> Slots.all_returned s ->
+  map snd (Slots.rets s) = Slots.emitted s /\ NoDup (map snd (Slots.rets s)).
+Proof. exact SlotsProofs.effects_returned_exactly_once. Qed.
+
+Theorem C08_effects_ok_sound : forall s, Slots.reachable s -> Slots.all_returned s ->
+  Slots.C08_effects_ok (Slots.emitted s) (map snd (Slots.rets s)) = true.
+Proof. exact SlotsProofs.effects_ok_sound. Qed.
+
+(* non-vacuity: the contended path (Unavailable, re-queue, second runner polls) is reachable *)
+Example C08_nonvacuous_contended : exists s, Slots.run SlotsProofs.contended Slots.init = Some s /\
+  Slots.pcs s 1 = Slots.Polling false 0 /\ Slots.pcs s 0 = Slots.SpawnLoop true /\ Slots.slots s 0 = Slots.STaken /\ Slots.pend s 0 = false.
+Proof. exact SlotsProofs.contended_reachable. Qed.
+
+
+(* ================= P2: waker / eviction protocol (command/executor.rs) ================= *)
 
 (* The code as it was (woken.load(), then Arc::strong_count()) evicts a task whose wake-up has
-   been sent: 4 steps of the waking thread between the runner's two loads. *)
-Theorem C08_evict_refuted : exists s, run WokenFirst witness init = Some s /\
-  r s = RDone Cancelled /\ sends s = 1 /\ woken s = true /\
-  ld_woken s = Some false /\ ld_count s = Some 1.
-Proof. exact evict_refuted_woken_first. Qed.
+   been sent: the four steps of the waking thread fall between the runner's two loads. *)
+Theorem C08_evict_refuted : exists s, Waker.run Waker.WokenFirst WakerProofs.witness Waker.init = Some s /\
+  Waker.r s = Waker.RDone Waker.Cancelled /\ Waker.sends s = 1 /\ Waker.woken s = true /\
+  Waker.ld_woken s = Some false /\ Waker.ld_count s = Some 1.
+Proof. exact WakerProofs.evict_refuted_woken_first. Qed.
 
 (* The repaired order (Arc::strong_count(), then woken.load()): in every reachable state of every
    interleaving, with any number of clones and waking threads, an evicted task was never sent a
    wake-up through this generation and no clone of its waker is left. *)
-Theorem C08_evict_safe : forall s, reachable CountFirst s ->
-  r s = RDone Cancelled -> sends s = 0 /\ live (hs s) = 0 /\ own s = false.
-Proof. exact evict_safe_count_first. Qed.
+Theorem C08_evict_safe : forall s, Waker.reachable Waker.CountFirst s ->
+  Waker.r s = Waker.RDone Waker.Cancelled -> Waker.sends s = 0 /\ Waker.live (Waker.hs s) = 0 /\ Waker.own s = false.
+Proof. exact WakerProofs.evict_safe_count_first. Qed.
 
-Theorem C08_evicted_is_final : forall s l, reachable CountFirst s -> r s = RDone Cancelled ->
-  step CountFirst l s = None.
-Proof. exact evicted_is_final. Qed.
+(* ... and nothing can happen in that generation afterwards: no label is enabled *)
+Theorem C08_evicted_is_final : forall s l, Waker.reachable Waker.CountFirst s -> Waker.r s = Waker.RDone Waker.Cancelled ->
+  Waker.step Waker.CountFirst l s = None.
+Proof. exact WakerProofs.evicted_is_final. Qed.
 
-Theorem C08_count_is_one_plus_clones : forall o s, reachable o s ->
-  count s = 1 + b2n (own s) + live (hs s).
-Proof. exact count_is_one_plus_clones. Qed.
+(* count = 1 + the runner's handle + undropped clones, for either order *)
+Theorem C08_count_is_one_plus_clones : forall o s, Waker.reachable o s ->
+  Waker.count s = 1 + WakerProofs.b2n (Waker.own s) + Waker.live (Waker.hs s).
+Proof. exact WakerProofs.count_is_one_plus_clones. Qed.
 
-Theorem C08_evicts_abandoned : forall o s, reachable o s -> r s = RPolled true -> woken s = false ->
-  live (hs s) = 0 ->
-  exists s', run o [RDropOwn; RLoad1; RLoad2] s = Some s' /\ r s' = RDone Cancelled.
-Proof. exact evicts_abandoned. Qed.
+(* no false retention at the protocol level: an abandoned pending task is evicted *)
+Theorem C08_evicts_abandoned : forall o s, Waker.reachable o s -> Waker.r s = Waker.RPolled true -> Waker.woken s = false ->
+  Waker.live (Waker.hs s) = 0 ->
+  exists s', Waker.run o [Waker.RDropOwn; Waker.RLoad1; Waker.RLoad2] s = Some s' /\ Waker.r s' = Waker.RDone Waker.Cancelled.
+Proof. exact WakerProofs.evicts_abandoned. Qed.
 
-Theorem C08_refuted_schedule_harmless_after_fix : exists s, run CountFirst witness init = Some s /\
-  r s = RDone Suspended /\ ld_woken s = Some true /\ ld_count s = Some 2.
-Proof. exact witness_harmless_count_first. Qed.
+Theorem C08_refuted_schedule_harmless_after_fix : exists s, Waker.run Waker.CountFirst WakerProofs.witness Waker.init = Some s /\
+  Waker.r s = Waker.RDone Waker.Suspended /\ Waker.ld_woken s = Some true /\ Waker.ld_count s = Some 2.
+Proof. exact WakerProofs.witness_harmless_count_first. Qed.
 
-Theorem C08_evict_ok_sound : forall s, reachable CountFirst s ->
-  C08_evict_ok (obs_decision s) (sends s) = true.
-Proof. exact evict_ok_sound. Qed.
+Theorem C08_evict_ok_sound : forall s, Waker.reachable Waker.CountFirst s ->
+  Waker.C08_evict_ok (Waker.obs_decision s) (Waker.sends s) = true.
+Proof. exact WakerProofs.evict_ok_sound. Qed.
+
+
+(* ================= P3: event application (core/mod.rs) ================= *)
+
+(* The code as it was (receive(), then model.write()): two callers take E(1,0) and E(1,1), sent in
+   that order by one task, and apply them in the opposite order. *)
+Theorem C08_event_order_refuted : exists s, Events.run Events.PopThenLock EventsProofs.witness Events.init = Some s /\
+  Events.pcs s 0 = Events.TIdle /\ Events.pcs s 1 = Events.TIdle /\ Events.chan s = [] /\
+  Events.log s = [Events.Direct 0; Events.Direct 1; Events.Emitted 1 1; Events.Emitted 1 0] /\
+  Events.proj 1 (Events.log s) = [1; 0] /\ Events.proj 1 (Events.log s) <> seq 0 (Events.nxt s 1).
+Proof. exact EventsProofs.event_order_refuted. Qed.
+
+(* The repaired code (model.write(), then receive()): at every reachable state the log followed
+   by the queued events is, for every task, exactly the events it has sent, in the order sent:
+   the log is an interleaving of the per-task emission sequences. *)
+Theorem C08_event_order : forall s, Events.reachable Events.PopUnderLock s ->
+  forall k, Events.proj k (Events.log s ++ Events.chan s) = seq 0 (Events.nxt s k).
+Proof. exact EventsProofs.event_order. Qed.
+
+Theorem C08_events_quiescent : forall s, Events.reachable Events.PopUnderLock s ->
+  (forall t, Events.pcs s t = Events.TIdle) -> Events.chan s = [].
+Proof. exact EventsProofs.quiescent_when_idle. Qed.
+
+Theorem C08_events_exactly_once_in_order : forall s, Events.reachable Events.PopUnderLock s ->
+  (forall t, Events.pcs s t = Events.TIdle) -> forall k, Events.proj k (Events.log s) = seq 0 (Events.nxt s k).
+Proof. exact EventsProofs.events_exactly_once_in_order. Qed.
+
+(* view() shows the model after a prefix of the log *)
+Theorem C08_view_consistent : forall s, Events.reachable Events.PopUnderLock s ->
+  forall n v, In (n, v) (Events.views s) -> v = firstn n (Events.log s) /\ n <= length (Events.log s).
+Proof. exact EventsProofs.view_consistent. Qed.
+
+Theorem C08_view_is_fold_of_prefix : forall (M : Type) (update : M -> Events.ev -> M) (m0 : M) s,
+  Events.reachable Events.PopUnderLock s -> forall n v, In (n, v) (Events.views s) ->
+  fold_left update v m0 = fold_left update (firstn n (Events.log s)) m0.
+Proof. exact EventsProofs.view_is_fold_of_prefix. Qed.
+
+Theorem C08_log_ok_sound : forall s, Events.reachable Events.PopUnderLock s -> (forall t, Events.pcs s t = Events.TIdle) ->
+  forall ks, Events.C08_log_ok (map (fun k => (k, Events.nxt s k)) ks) (Events.log s) = true.
+Proof. exact EventsProofs.log_ok_sound. Qed.
+
+Theorem C08_refuted_calls_in_order_after_fix : exists s, Events.run Events.PopUnderLock EventsProofs.witness_fixed Events.init = Some s /\
+  Events.log s = [Events.Direct 0; Events.Direct 1; Events.Emitted 1 0; Events.Emitted 1 1].
+Proof. exact EventsProofs.witness_fixed_in_order. Qed.
+
